@@ -4,8 +4,10 @@ from __future__ import annotations
 from typing import Any, Iterator
 
 CLOSE = {"scope": "endscope", "shield": "endshield", "try": "endtry", "trye": "endtrye", "group": "endgroup",
-         "child": "endchild"}
-BLOCKS = ("shield", "try", "trye", "group", "child")
+         "child": "endchild", "start": "endstart", "soon": "endsoon", "tryf": "endtryf"}
+BLOCKS = ("shield", "try", "trye", "group", "child", "start", "soon")
+CHILD_BLOCKS = ("child", "start", "soon")       # the body is the program of a new task
+PRIM_KINDS = ("event", "lock", "cond", "thread", "threada")
 
 
 # ------------------------------------------------------------------------------------------------
@@ -14,6 +16,8 @@ BLOCKS = ("shield", "try", "trye", "group", "child")
 #         operations that fail (oracle only): ("fwait", k) ("fail",) ("join", i) ("trye", body); case field
 #         "futs": [[tick, "ok"|"err", first], …] = when / how harness future k is resolved, before or after the
 #         external cancels of the same tick
+#         checkpoints of the task-group / backend API (oracle only): ("start", body) ("soon", body) ("pwait", kind, k)
+#         ("sleepu", d) ("forever",) ("twait", i) ("joinc", i) ("tryf", body, cleanup)
 # ------------------------------------------------------------------------------------------------
 
 def flatten(tree: list[Any]) -> list[str]:
@@ -30,6 +34,12 @@ def flatten(tree: list[Any]) -> list[str]:
                 out.append(op)
                 go(st[1])
                 out.append(CLOSE[op])
+            elif op == "tryf":
+                out.append("tryf")
+                go(st[1])
+                out.append("finally")
+                go(st[2])
+                out.append("endtryf")
             elif op == "resched":
                 out.append(f"resched {st[1]} {'inf' if st[2] is None else st[2]}")
             else:
@@ -41,6 +51,7 @@ def flatten(tree: list[Any]) -> list[str]:
 
 def unflatten(lines: list[str]) -> list[Any]:
     pos = 0
+    last = [""]
 
     def block(closer):
         nonlocal pos
@@ -48,9 +59,16 @@ def unflatten(lines: list[str]) -> list[Any]:
         while pos < len(lines):
             w = lines[pos].split()
             pos += 1
-            if closer is not None and w[0] == closer:
+            if closer is not None and w[0] in (closer if isinstance(closer, tuple) else (closer,)):
+                last[0] = w[0]
                 return out
-            if w[0] == "scope":
+            if w[0] == "tryf":
+                body = block(("finally", "endtryf"))
+                cleanup = block("endtryf") if last[0] == "finally" else []
+                out.append(("tryf", body, cleanup))
+            elif w[0] == "pwait":
+                out.append(("pwait", w[1], int(w[2])))
+            elif w[0] == "scope":
                 d = None if w[2] == "inf" else int(w[2])
                 body = block("endscope")
                 out.append(("scope", w[1], d, w[3] == "1", body))
@@ -58,7 +76,7 @@ def unflatten(lines: list[str]) -> list[Any]:
                 out.append((w[0], block(CLOSE[w[0]])))
             elif w[0] == "resched":
                 out.append(("resched", int(w[1]), None if w[2] == "inf" else int(w[2])))
-            elif w[0] in ("sleep", "cancel", "fwait", "join"):
+            elif w[0] in ("sleep", "cancel", "fwait", "join", "sleepu", "twait", "joinc"):
                 out.append((w[0], int(w[1])))
             else:
                 out.append((w[0],))
@@ -75,19 +93,63 @@ def size(tree) -> int:
             n += size(st[4])
         elif st[0] in BLOCKS:
             n += size(st[1])
+        elif st[0] == "tryf":
+            n += size(st[1]) + size(st[2])
     return n
 
 
 class Gen:
-    def __init__(self, rng, groups: bool, tries: bool, fails: bool = False) -> None:
+    def __init__(self, rng, groups: bool, tries: bool, fails: bool = False, prims: bool = False) -> None:
         self.rng = rng
         self.budget = 0
         self.groups = groups
         self.tries = tries
         self.fails = fails       # operations that fail: fwait / fail / join / trye (real side + oracle only)
+        self.prims = prims       # checkpoints of the task-group / backend API: start / soon / pwait / … (oracle only)
         self.nfut = 0
         self.nchild = 0          # children of the innermost enclosing group of the current task (targets of `join`)
         self.in_child = False
+        self.in_group = False    # inside the body of a task group, in the task that runs the group (start / soon allowed)
+
+    def child_body(self, depth: int) -> list[Any]:
+        """program of a task started with start() / start_soon(): short, often shielded or failing"""
+        rng = self.rng
+        saved = (self.nchild, self.in_child, self.in_group)
+        self.nchild, self.in_child, self.in_group = 0, True, False
+        r = rng.random()
+        if r < 0.35:
+            body = [("sleep", rng.choice([0, 1, 2, 3, 9]))]
+        elif r < 0.55:
+            body = [("shield", [("sleep", rng.choice([1, 2, 3]))]), ("sleep", rng.choice([0, 1, 9]))]
+        elif r < 0.65:
+            body = [("syield",), ("sleep", rng.choice([1, 9]))]
+        else:
+            body = self.block(max(depth, 2) + 1, 0)
+        if self.fails and rng.random() < 0.2:
+            body.insert(rng.randint(0, len(body)), ("fail",))
+        self.nchild, self.in_child, self.in_group = saved
+        return body
+
+    def cleanup(self, depth: int, nsc: int) -> list[Any]:
+        """`finally` part of a tryf: mostly cancel-shielded statements (what clean-up code looks like)"""
+        rng = self.rng
+        out = []
+        for _ in range(rng.randint(1, 2)):
+            r = rng.random()
+            if r < 0.35:
+                out.append(("shield", [("sleep", rng.choice([0, 1, 2, 3]))]))
+            elif r < 0.6:
+                out.append(("syield",))
+            elif r < 0.7:
+                self.nfut += 1
+                out.append(("pwait", "thread", self.nfut - 1))
+            elif r < 0.8 and nsc > 0:
+                out.append(("cancel", rng.randrange(nsc)))
+            elif r < 0.9:
+                out.append(("yield",))
+            else:
+                out.append(("sleep", rng.choice([0, 1, 2])))
+        return out
 
     def block(self, depth: int, nsc: int, in_child: bool = False, top: bool = False) -> list[Any]:
         rng = self.rng
@@ -116,20 +178,35 @@ class Gen:
             if r < 0.46 and self.tries:
                 return ("try", self.block(depth + 1, nsc))
             if r < 0.50 and self.groups and depth < 3:
-                saved = (self.nchild, self.in_child)
-                self.nchild, self.in_child = 0, True
+                saved = (self.nchild, self.in_child, self.in_group)
+                self.nchild, self.in_child, self.in_group = 0, True, False
                 kids = []
                 for _ in range(rng.randint(1, 2)):
                     body = self.block(depth + 2, 0)
                     if self.fails and rng.random() < 0.6:
                         body.insert(rng.randint(0, len(body)), ("fail",))
                     kids.append(("child", body))
-                self.nchild, self.in_child = len(kids), saved[1]
+                self.nchild, self.in_child, self.in_group = len(kids), saved[1], True
                 body = self.block(depth + 1, nsc)
-                self.nchild = saved[0]
+                self.nchild, self.in_group = saved[0], saved[2]
                 return ("group", kids + body)
             if r < 0.60 and self.fails:
                 return ("trye", self.block(depth + 1, nsc))
+            if r < 0.68 and self.prims:
+                return ("tryf", self.block(depth + 1, nsc), self.cleanup(depth + 1, nsc))
+        if self.prims:
+            r = rng.random()
+            if r < 0.22 and self.in_group:
+                return ("start", self.child_body(depth))
+            if r < 0.27 and self.in_group:
+                return ("soon", self.child_body(depth))
+            if r < 0.42:
+                self.nfut += 1
+                return ("pwait", rng.choice(PRIM_KINDS), self.nfut - 1)
+            if r < 0.46:
+                return ("sleepu", rng.choice([0, 1, 2, 3, 5]))
+            if r < 0.52 and self.nchild:
+                return ("twait", rng.randrange(self.nchild))
         if self.fails:
             r = rng.random()
             if r < 0.20:
@@ -243,6 +320,155 @@ def gen_race_case(rng) -> dict:
     return {"prog": flatten(tree), "ext": ext, "ext_last": ext_last, "futs": []}
 
 
+def _ext_for(rng, hi: int) -> list[int]:
+    r = rng.random()
+    if r < 0.3:
+        return []
+    if r < 0.88:
+        return [rng.randint(0, hi)]
+    return sorted(rng.randint(0, hi + 2) for _ in range(2))
+
+
+def gen_prim_case(rng) -> dict:
+    """random program over the full statement set (checkpoints of the task-group / backend API included), most of the
+    time the body of a task group, so that start() / start_soon() are available everywhere"""
+    g = Gen(rng, groups=True, tries=rng.random() < 0.15, fails=rng.random() < 0.4, prims=True)
+    g.budget = rng.randint(3, 14)
+    if rng.random() < 0.75:
+        kids = []
+        for _ in range(rng.choice([0, 0, 1, 1, 2])):
+            g.budget += 2
+            kids.append(("child", g.child_body(1)))
+        g.nchild, g.in_group = len(kids), True
+        body = g.block(1, 0)
+        tree = [("group", kids + body)]
+        g.nchild, g.in_group = 0, False
+        for _ in range(rng.randint(0, 2)):
+            tree.append(rng.choice([("yield",), ("sleep", rng.choice([0, 1, 2])), ("syield",)]))
+    else:
+        tree = g.block(0, 0, top=True)
+    ext = _ext_for(rng, 10)
+    return {"prog": flatten(tree), "ext": ext, "ext_last": rng.random() < 0.4, "futs": _futs_for(rng, g.nfut, ext)}
+
+
+def gen_start_case(rng) -> dict:
+    """directed shape: a cancellation (deadline passed at entry / after k ticks, pre-cancelled scope, explicit cancel,
+    enclosing scope, external cancel at every tick) arrives AT a checkpoint of the task-group / backend API or at a
+    clean-up section that shields itself and re-raises, inside a scope; the scope is followed by further checkpoints
+    (a request that outlives the scope hits them):
+        group{ [children] prefix  [outer scope{]  scope k d pre { pre-ops  CORE  post-ops }  [}]  suffix }  tail
+    CORE = start{child} | soon{child}; checkpoint | pwait <prim> | twait/join child | sleep/sleepu/forever |
+           tryf{ CORE' finally shielded clean-up }"""
+    nfut = 0
+
+    def simple(n):
+        return [rng.choice([("sleep", rng.choice([0, 1, 1, 2, 3])), ("yield",), ("syield",)]) for _ in range(n)]
+
+    def child_body():
+        r = rng.random()
+        if r < 0.3:
+            return [("sleep", rng.choice([0, 1, 3, 9]))]
+        if r < 0.55:
+            return [("shield", [("sleep", rng.choice([1, 2, 3]))]), ("sleep", rng.choice([0, 9]))]
+        if r < 0.7:
+            return [("syield",)] * rng.randint(1, 3) + [("sleep", 9)]
+        if r < 0.8:
+            return [("scope", "m", rng.choice([0, 1]), False, [("sleep", 9)]), ("yield",)]
+        if r < 0.9:
+            return simple(rng.randint(0, 1)) + [("fail",)]
+        return [("yield",)]
+
+    def prim():
+        nonlocal nfut
+        nfut += 1
+        return ("pwait", rng.choice(PRIM_KINDS), nfut - 1)
+
+    nkids = rng.choice([0, 0, 1, 2])
+    kids = [("child", child_body()) for _ in range(nkids)]
+    forever_ok = False
+
+    def core(allow_tryf=True):
+        r = rng.random()
+        if r < 0.42:
+            return [("start", child_body())]
+        if r < 0.50:
+            return [("soon", child_body()), rng.choice([("yield",), ("sleep", 1), ("syield",)])]
+        if r < 0.68:
+            return [prim()]
+        if r < 0.74 and nkids:
+            return [(rng.choice(["twait", "join"]), rng.randrange(nkids))]
+        if r < 0.80:
+            # (sleep_forever only where a deadline is sure to end it)
+            return [rng.choice([("sleepu", rng.choice([0, 2, 5])), ("forever",) if forever_ok else ("sleepu", 9), ("sleep", 9)])]
+        if allow_tryf:
+            cleanup = []
+            for _ in range(rng.randint(1, 2)):
+                q = rng.random()
+                if q < 0.4:
+                    cleanup.append(("shield", [("sleep", rng.choice([0, 1, 2, 3]))]))
+                elif q < 0.7:
+                    cleanup.append(("syield",))
+                elif q < 0.85:
+                    nonlocal nfut
+                    nfut += 1
+                    cleanup.append(("pwait", "thread", nfut - 1))
+                else:
+                    cleanup.append(("shield", [("start", child_body())]))
+            return [("tryf", core(False), cleanup)]
+        return [("sleep", 9)]
+
+    pre_ops = simple(rng.choice([0, 0, 1, 2]))
+    how = rng.random()
+    delay: int | None
+    pre = False
+    if how < 0.35:
+        delay = 0                                   # deadline already passed at entry
+    elif how < 0.65:
+        delay = rng.choice([1, 1, 2, 3, 4])         # passes while the body runs: every step, with the pre-ops' lengths
+    elif how < 0.75:
+        delay, pre = None, True                     # cancelled before it is entered
+    elif how < 0.9:
+        delay = None
+        pre_ops = pre_ops + [("cancel", 0)]         # explicit cancel, then the checkpoint
+        if rng.random() < 0.5:
+            pre_ops.append(("syield",))
+    else:
+        delay = None                                # only an enclosing scope / an external cancel interrupts
+    post_ops = simple(rng.choice([0, 0, 1]))
+    shield_all = rng.random() < 0.07
+    forever_ok = delay is not None and not shield_all
+    c = core()
+    w = rng.random()
+    if w < 0.15:
+        c = [("scope", rng.choice("mt"), rng.choice([None, 9]), False, c)]          # a live scope in between
+    scope = ("scope", rng.choice("mmt"), delay, pre, pre_ops + c + post_ops)
+    inner: list[Any] = [scope]
+    w = rng.random()
+    if w < 0.2:
+        inner = [("scope", rng.choice("mt"), rng.choice([None, 9, 12]), False, inner + simple(rng.choice([0, 1])))]   # live outer
+    elif w < 0.35:
+        inner = [("scope", rng.choice("mt"), rng.choice([0, 1, 2, 3]), False, inner + simple(rng.choice([0, 1])))]    # cancelled outer
+    elif shield_all:
+        inner = [("shield", inner)]
+    suffix = [rng.choice([("yield",), ("sleep", rng.choice([0, 1, 2, 3])), ("sleepu", 1)]) for _ in range(rng.randint(1, 3))]
+    if rng.random() < 0.2:
+        suffix.insert(rng.randint(0, len(suffix)), rng.choice([("syield",), ("shield", simple(1))]))
+    prefix = simple(rng.choice([0, 0, 1]))
+    tail = simple(rng.choice([0, 1, 1]))
+    tree = [("group", kids + prefix + inner + suffix)] + tail
+    r = rng.random()
+    if r < 0.45:
+        ext = []
+    elif r < 0.92:
+        ext = [rng.randint(0, 8)]
+    else:
+        ext = sorted(rng.randint(0, 9) for _ in range(2))
+    futs = []
+    for _ in range(nfut):
+        futs.append([rng.randint(0, 8), "err" if rng.random() < 0.2 else "ok", rng.random() < 0.5])
+    return {"prog": flatten(tree), "ext": ext, "ext_last": rng.random() < 0.4, "futs": futs}
+
+
 def generate(rng, tier: str, boost: int) -> Iterator[dict]:
     n = (6000 if tier == "quick" else 120000) * boost
     for i in range(n):
@@ -253,6 +479,12 @@ def generate(rng, tier: str, boost: int) -> Iterator[dict]:
             yield gen_race_case(rng)
         else:
             yield gen_fail_case(rng, groups=(i % 4 == 0))
+    # checkpoints of the task-group / backend API as the place where a cancellation arrives (oracle only)
+    for i in range(n // 3):
+        if i % 2:
+            yield gen_prim_case(rng)
+        else:
+            yield gen_start_case(rng)
     if tier != "quick":
         yield from exhaustive_small()
 
@@ -332,29 +564,40 @@ def _fut_refs(tree) -> Iterator[int]:
     for st in tree:
         if st[0] == "fwait":
             yield st[1]
+        elif st[0] == "pwait":
+            yield st[2]
         elif st[0] == "scope":
             yield from _fut_refs(st[4])
         elif st[0] in BLOCKS:
             yield from _fut_refs(st[1])
+        elif st[0] == "tryf":
+            yield from _fut_refs(st[1])
+            yield from _fut_refs(st[2])
 
 
-def _refs_ok(tree, nsc=0, nchild=0) -> bool:
+def _refs_ok(tree, nsc=0, nchild=0, in_group=False) -> bool:
     for st in tree:
         if st[0] in ("cancel", "resched") and st[1] >= nsc:
             return False
-        if st[0] == "join" and st[1] >= nchild:
+        if st[0] in ("join", "twait", "joinc") and st[1] >= nchild:
             return False
-        if st[0] == "scope" and not _refs_ok(st[4], nsc + 1, nchild):
+        if st[0] == "scope" and not _refs_ok(st[4], nsc + 1, nchild, in_group):
             return False
-        if st[0] in ("shield", "try", "trye") and not _refs_ok(st[1], nsc, nchild):
+        if st[0] in ("shield", "try", "trye") and not _refs_ok(st[1], nsc, nchild, in_group):
+            return False
+        if st[0] == "tryf" and not (st[1] and _refs_ok(st[1], nsc, nchild, in_group) and _refs_ok(st[2], nsc, nchild, in_group)):
+            return False
+        if st[0] in ("start", "soon") and not (in_group and _refs_ok(st[1], 0, 0, False)):
+            return False
+        if st[0] == "child" and not in_group:
             return False
         if st[0] == "group":
             n = sum(1 for k in st[1] if k[0] == "child")
             for k in st[1]:
                 if k[0] == "child":
-                    if not _refs_ok(k[1], 0, 0):
+                    if not _refs_ok(k[1], 0, 0, False):
                         return False
-                elif not _refs_ok([k], nsc, n):
+                elif not _refs_ok([k], nsc, n, True):
                     return False
     return True
 
@@ -391,12 +634,20 @@ def _variants(tree) -> Iterator[list]:
             yield pre + body + post
             for b in _variants(st[1]):
                 yield pre + [("group", b)] + post
-        elif op == "child":
+        elif op in CHILD_BLOCKS:
             for b in _variants(st[1]):
                 if b:
-                    yield pre + [("child", b)] + post
-        elif op == "sleep" and st[1] > 0:
-            yield pre + [("sleep", st[1] - 1)] + post
+                    yield pre + [(op, b)] + post
+        elif op == "tryf":
+            yield pre + list(st[1]) + list(st[2]) + post
+            yield pre + list(st[1]) + post
+            for b in _variants(st[1]):
+                if b:
+                    yield pre + [("tryf", b, st[2])] + post
+            for b in _variants(st[2]):
+                yield pre + [("tryf", st[1], b)] + post
+        elif op in ("sleep", "sleepu") and st[1] > 0:
+            yield pre + [(op, st[1] - 1)] + post
         elif op == "resched" and st[2]:
             yield pre + [("resched", st[1], st[2] - 1)] + post
 
@@ -474,5 +725,52 @@ def corpus() -> list[dict]:
         # open finding, the postponed cancel carried over into a second shielded section with no checkpoint in between
         c(["scope m 9 0", "trye", "shield", "fwait 0", "sleep 3", "endshield", "endtrye", "shield", "sleep 3", "endshield",
            "endscope", "sleep 0", "yield"], [4], True, futs=[(5, "err", False)]),
+        # ---- checkpoints of the task-group / backend API as the operation at which the cancellation arrives ----
+        # TaskGroup.start() as the first checkpoint of a scope whose deadline has passed / that was cancelled: start() must
+        # raise (O1), the scope catches (timeout() -> TimeoutError), and nothing of the scope may hit the checkpoints
+        # that follow it (start() swallowed the scope's re-deliveries in its shielded clean-up: O5 handles, O9)
+        c(["group", "scope m 0 0", "start", "sleep 9", "endstart", "endscope", "yield", "sleep 0", "sleep 2", "endgroup", "yield"]),
+        c(["group", "scope t 0 0", "start", "sleep 9", "endstart", "endscope", "yield", "sleep 0", "sleep 2", "endgroup", "yield"]),
+        c(["group", "scope m inf 0", "cancel 0", "syield", "start", "sleep 9", "endstart", "endscope", "yield", "sleep 0",
+           "sleep 2", "endgroup"]),
+        c(["group", "scope m 9 0", "scope m 0 0", "start", "sleep 9", "endstart", "endscope", "yield", "sleep 0", "sleep 2",
+           "endscope", "endgroup"]),
+        c(["group", "scope m 0 0", "scope m 9 0", "start", "sleep 9", "endstart", "yield", "endscope", "yield", "endscope",
+           "yield", "endgroup"]),
+        # the deadline passes while start() is in progress (child shielded: the clean-up of start() lasts several turns)
+        c(["group", "scope m 1 0", "start", "shield", "sleep 3", "endshield", "sleep 9", "endstart", "yield", "endscope", "yield",
+           "sleep 1", "endgroup", "yield"]),
+        c(["group", "scope t 2 0", "sleep 1", "start", "syield", "syield", "sleep 9", "endstart", "endscope", "yield", "sleep 1",
+           "endgroup"]),
+        # external cancel() at every tick of a start() (with / without a live scope around)
+        *[c(["group", "start", "sleep 3", "endstart", "sleep 2", "endgroup", "yield"], [t]) for t in (0, 1, 2, 3)],
+        *[c(["group", "scope m 9 0", "start", "shield", "sleep 2", "endshield", "endstart", "sleep 2", "endscope", "endgroup",
+             "yield"], [t], last) for t in (0, 1, 2) for last in (False, True)],
+        # start_soon + checkpoint, Task.wait(), join inside cancelled scopes
+        c(["group", "child", "sleep 3", "endchild", "scope m 1 0", "soon", "sleep 9", "endsoon", "twait 0", "endscope", "yield",
+           "endgroup"]),
+        # backend primitives inside a scope whose deadline passes while they wait / has passed / external cancel
+        *[c(["scope t 2 0", f"pwait {k} 0", "yield", "endscope", "yield", "yield"], [], futs=[(6, "ok", True)])
+          for k in PRIM_KINDS],
+        *[c(["scope m 0 0", f"pwait {k} 0", "yield", "endscope", "yield", "yield"], [], futs=[(3, "ok", True)])
+          for k in PRIM_KINDS],
+        *[c([f"pwait {k} 0", "yield", "yield"], [1], futs=[(4, "ok", False)]) for k in PRIM_KINDS],
+        c(["scope m 1 0", "sleepu 5", "endscope", "forever"], [4]),
+        # clean-up that shields itself and lets the CancelledError go on (what start() does internally): the scope
+        # catches in the very step in which the shielded section swallowed one of its requests
+        c(["scope m 1 0", "tryf", "sleep 9", "finally", "shield", "sleep 2", "endshield", "endtryf", "endscope", "yield", "yield",
+           "sleep 1"]),
+        c(["scope t 0 0", "tryf", "yield", "finally", "syield", "endtryf", "endscope", "yield", "yield"]),
+        c(["scope m 9 0", "scope m 1 0", "tryf", "sleep 9", "finally", "pwait thread 0", "endtryf", "endscope", "yield", "yield",
+           "endscope"], [], futs=[(4, "ok", True)]),
+        c(["tryf", "sleep 9", "finally", "shield", "sleep 2", "endshield", "endtryf", "yield"], [1]),
+        # defect fixed by f0fd355 (docs/C13.md 5.4): start() under ignore_cancellation never returned when the group
+        # aborted in the loop turn in which start() had created its child (gather() does exactly this): O6 start-hang
+        c(["group", "shield", "scope m 0 0", "start", "fail", "endstart", "start", "sleep 0", "endstart", "endscope",
+           "endshield", "endgroup"]),
+        c(["group", "child", "fail", "endchild", "syield", "shield", "start", "sleep 0", "endstart", "endshield", "endgroup"]),
+        # start() / start_soon() on a group that is already shutting down: RuntimeError of asyncio (class gdown)
+        c(["group", "child", "yield", "fail", "endchild", "shield", "start", "sleep 1", "endstart", "start", "sleep 1", "endstart",
+           "endshield", "endgroup"]),
     ]
     return cases
